@@ -98,7 +98,7 @@ func mkL22[
 		shards, err := getShards(s, a, kg)
 		if err != nil {
 			if !outside(x0, err, where) {
-				x.Failf("lindell22/keygen/"+kg.String(), "%s: key generation failed: %s", where, errStr(err))
+				x.Failf("lindell22/keygen/"+kg.String(), "%s: key generation failed\n    error: %s", where, errStr(err))
 			}
 			return
 		}
@@ -151,14 +151,14 @@ func mkL22[
 				fk := fmt.Sprintf("lindell22/%s/%s", c.keyName, apiNames[api])
 				// (1) termination with an output at every holder that should have one
 				if out.Refused != nil {
-					x.Failf(fk+"/refused-qualified", "%s: a cosigner constructor refused a QUALIFIED quorum: %s", cw, errsString(out.Errs))
+					x.Failf(fk+"/refused-qualified", "%s: a cosigner constructor refused a QUALIFIED quorum\n    errors: %s", cw, errsString(out.Errs))
 					continue
 				}
 				missing := false
 				for _, w := range out.Want {
 					if _, ok := out.Sigs[w]; !ok {
 						missing = true
-						x.Failf(fk+"/no-output/"+holderClass(w), "%s: %s obtained no signature: %s", cw, w, errsString(out.Errs))
+						x.Failf(fk+"/no-output/"+holderClass(w), "%s: %s obtained no signature\n    errors: %s", cw, w, errsString(out.Errs))
 					}
 				}
 				if len(out.Sigs) == 0 {
@@ -171,7 +171,7 @@ func mkL22[
 				for _, w := range sortedKeys(out.Sigs) {
 					b, err := c.wire(out.Sigs[w])
 					if err != nil {
-						x.Failf(fk+"/serialize", "%s: signature of %s does not serialise: %v", cw, w, err)
+						x.Failf(fk+"/serialize", "%s: signature of %s does not serialise\n    error: %v", cw, w, err)
 						equal = false
 						continue
 					}
@@ -197,16 +197,16 @@ func mkL22[
 				}
 				for _, w := range sortedKeys(out.Sigs) {
 					if err := vf.Verify(out.Sigs[w], pk, m); err != nil {
-						x.Failf(fk+"/library-verifier-rejects/"+holderClass(w), "%s: the library verifier rejects the signature obtained by %s: %v", cw, w, err)
+						x.Failf(fk+"/library-verifier-rejects/"+holderClass(w), "%s: the library verifier rejects the signature obtained by %s\n    error: %v", cw, w, err)
 					}
 				}
 				var decoded sigT
 				if c.reparse != nil {
 					decoded, err = c.reparse(first)
 					if err != nil {
-						x.Failf(fk+"/decode", "%s: the published signature %x does not decode: %v", cw, first, err)
+						x.Failf(fk+"/decode", "%s: the published signature %x does not decode\n    error: %v", cw, first, err)
 					} else if err := vf.Verify(decoded, pk, m); err != nil {
-						x.Failf(fk+"/library-verifier-rejects/decoded", "%s: the library verifier rejects the decoded published signature %x: %v", cw, first, err)
+						x.Failf(fk+"/library-verifier-rejects/decoded", "%s: the library verifier rejects the decoded published signature %x\n    error: %v", cw, first, err)
 					}
 				}
 				// (5) both verifiers reject the same signature for the next message of the alphabet
@@ -261,7 +261,7 @@ func mkL22[
 					if len(out.Sigs) > 0 {
 						x.Failf("lindell22/"+c.keyName+"/unqualified-quorum-signs", "%s: the UNQUALIFIED party set %s obtained a signature (%v)", where, idsString(set), sortedKeys(out.Sigs))
 					} else {
-						x.Failf("lindell22/"+c.keyName+"/unqualified-quorum-not-refused-at-construction", "%s: every cosigner constructor accepted the UNQUALIFIED party set %s (the run then failed: %s)", where, idsString(set), errsString(out.Errs))
+						x.Failf("lindell22/"+c.keyName+"/unqualified-quorum-not-refused-at-construction", "%s: every cosigner constructor accepted the UNQUALIFIED party set %s \n    (the run then failed: %s)", where, idsString(set), errsString(out.Errs))
 					}
 				}
 			}
